@@ -715,3 +715,8 @@ def replay_args(v):
         code = v.get("model", {}).get("reset_code")
         return ("c07_reset_inside_frame", [str(code)] if code is not None else [])
     return _replay_three(v)
+
+
+# native scenarios that exercise, against the real build, the behaviours this spec decides: on a tree where the spec finds no
+# violation every one of them must NOT reproduce (a scenario that reproduces there means the spec misses something)
+SCENARIOS = [('c02_decoder_memo', []), ('c02_truncated_data', []), ('c07_reset_inside_frame', []), ('c07_reset_inside_frame', ['256']), ('c06_poll_next_spin', [])]
